@@ -20,3 +20,19 @@ L = replace(L, '| id | theorems (all closed', lambda l: l.startswith('Total: '),
 L = replace(L, '| seed | change | needs | verdict |', lambda l: l.startswith('Totals: '), gen('seed_table.py'))
 open(P, 'w').write('\n'.join(L))
 print('DESIGN.md tables refreshed')
+
+# the one-line list of open findings
+import glob, json, re
+L = open(P).read().split('\n')
+k = next(i for i, l in enumerate(L) if l.startswith('Open findings in one line each'))
+head = L[k][:L[k].index('property file): ') + len('property file): ')]
+items = []
+for f in sorted(glob.glob(R + '/known_findings/C*.json')):
+    for x in json.load(open(f))['findings']:
+        if x['status'] == 'open':
+            txt = re.sub(r'\s+', ' ', x.get('what', x.get('text', '')))
+            txt = txt[:130].rsplit(' ', 1)[0].rstrip(' ,;:(') + (' …' if len(txt) > 130 else '')
+            items.append('**%s** %s' % (x['id'], txt))
+L[k] = head + '; '.join(items) + '.'
+open(P, 'w').write('\n'.join(L))
+print('open findings list refreshed: %d' % len(items))
